@@ -186,4 +186,27 @@ structure CrdEni where
 def crdOwner (enis : List CrdEni) (pod : String) : Option String :=
   (enis.find? fun e => e.inUse && e.ips.any fun a => a.2.1 && a.2.2 == pod).map (·.id)
 
+/-! ### a local result served from an interface the daemon found attached at start-up
+
+`pkg/aliyun/eni.GetENIByMac` reads the interface's gateway and vSwitch CIDR of each enabled family from the instance metadata;
+`LocalIPResource.ToRPC` reports them beside the pod's address.  The correspondence runs on the subnets `10.k.0.0/24` /
+`fd00:k::/64` with the gateways `.253` / `::fffd`; the texts are Go's renderings. -/
+
+structure MetaConf where
+  gw4 : String
+  gw6 : Option String
+  cidr4 : String
+  cidr6 : Option String
+  deriving DecidableEq, Repr
+
+def hexDigits (n : Nat) : String := String.ofList (Nat.toDigits 16 n)
+
+/-- `fd00:k:` with Go's zero compression -/
+def v6Prefix (k : Nat) : String := if k = 0 then "fd00::" else s!"fd00:{hexDigits k}::"
+
+def metaNetConf (v6 : Bool) (k : Nat) : MetaConf :=
+  { gw4 := s!"10.{k}.0.253", cidr4 := s!"10.{k}.0.0/24",
+    gw6 := if v6 then some (v6Prefix k ++ "fffd") else none,
+    cidr6 := if v6 then some (v6Prefix k ++ "/64") else none }
+
 end Terway.NetConf
